@@ -1,6 +1,6 @@
 #!/usr/bin/env python3
-"""Runs every independently written breaking change under seeded/<id>/ against
-the checks of the properties it breaks: the patch is applied to a scratch
+"""Runs every independently written breaking change under seeded/<id>/ and seeded2/<id>/ against
+the check of the property it was written against: the patch is applied to a scratch
 worktree of /repo (never to /repo itself) and `./check <ID> --repo <worktree>`
 is run at several seeds. Prints one line per (change, property, seed).
 
@@ -27,9 +27,11 @@ def main():
     only = set(x for x in a.only.split(",") if x)
     seeds = [int(x) for x in a.seeds.split(",")]
     todo = []
-    for mf in sorted(glob.glob(os.path.join(ROOT, "seeded", "*", "meta.json"))):
+    for mf in sorted(glob.glob(os.path.join(ROOT, "seeded", "*", "meta.json"))) + sorted(glob.glob(os.path.join(ROOT, "seeded2", "*", "meta.json"))):
         m = json.load(open(mf))
-        if only and m["id"] not in only:
+        m["dir"] = os.path.dirname(mf)
+        m["tag"] = os.path.basename(os.path.dirname(os.path.dirname(mf))) + "/" + m["id"]
+        if only and m["id"] not in only and m["tag"] not in only:
             continue
         todo.append(m)
     q = queue.Queue()
@@ -45,9 +47,9 @@ def main():
                 return
             sh("git -C /repo worktree remove --force %s" % wt)
             r = sh("git -C /repo worktree add -q --detach %s HEAD" % wt)
-            r = sh("git apply %s" % os.path.join(ROOT, "seeded", m["id"], "patch.diff"), wt)
+            r = sh("git apply %s" % os.path.join(m["dir"], "patch.diff"), wt)
             if r.returncode != 0:
-                line = "%s | PATCH DOES NOT APPLY | %s" % (m["id"], r.stdout.strip()[:200])
+                line = "%s | PATCH DOES NOT APPLY | %s" % (m["tag"], r.stdout.strip()[:200])
                 with lock:
                     rows.append(line); print(line, flush=True)
                 continue
@@ -58,7 +60,7 @@ def main():
                     for l in r.stdout.splitlines():
                         if "violated oracle" in l:
                             sig = l.strip()[16:120]; break
-                    line = "%s | %s seed %d | %s | %s" % (m["id"], p, s, {0: "MISSED", 1: "detected", 2: "inconclusive"}.get(r.returncode, r.returncode), sig)
+                    line = "%s | %s seed %d | %s | %s" % (m["tag"], p, s, {0: "MISSED", 1: "detected", 2: "inconclusive"}.get(r.returncode, r.returncode), sig)
                     with lock:
                         rows.append(line); print(line, flush=True)
             sh("git -C /repo worktree remove --force %s" % wt)
